@@ -821,6 +821,14 @@ class Interp:
         return self._run_fn_body(ast, env)
 
     def _run_fn_body(self, ast, env):
+        saved_fn_ = getattr(self, "cur_fn", None)
+        self.cur_fn = (ast.get("__rel__") or (self.file_root[1] if getattr(self, "file_root", None) else "?")) + "::" + str(ast["sig"].get("name"))
+        try:
+            return self._run_fn_body2(ast, env)
+        finally:
+            self.cur_fn = saved_fn_
+
+    def _run_fn_body2(self, ast, env):
         mm = ast.get("__memo__") if getattr(self, "memo_enabled", True) else None
         if not mm:
             return self.block(ast["body"], env)
@@ -1148,7 +1156,7 @@ class Interp:
         if rt:      # normalise: tainted side on the left
             op = {"<": ">", "<=": ">=", ">": "<", ">=": "<=", "==": "==", "!=": "!="}[op]
             l, r = r, l
-        _LEN_CMPS.append((op, int(r), int(l), bool(outcome)))
+        _LEN_CMPS.append((getattr(self, "cur_fn", None) or "?", op, int(r), int(l), bool(outcome)))
 
     def arith(self, op, l, r, node):
         l, r = _deref(l), _deref(r)
@@ -1891,7 +1899,7 @@ class Interp:
             return VOpaque(path, args)
         # a crate-local helper in the same file without a contract (typically introduced by the change under test):
         # fall back to its BODY (interprocedural symbolic execution, recorded), never for callees that have a contract
-        if (len(segs) == 1 or (len(segs) == 2 and segs[0] == "Self")) and getattr(self, "file_root", None) and self.inline_depth < 3:
+        if (len(segs) == 1 or (len(segs) == 2 and segs[0] == "Self")) and getattr(self, "file_root", None) and self.inline_depth < getattr(self, "max_inline_depth", 3):
             # `&mut local` arguments keep reference semantics inside the inlined body
             args_i = []
             for ae, av in zip(e["args"], args):
@@ -1903,7 +1911,7 @@ class Interp:
             v = self.try_inline(segs[-1], args_i)
             if v is not NotImplemented:
                 return v
-        if len(segs) == 2 and getattr(self, "file_root", None) and self.inline_depth < 3:
+        if len(segs) == 2 and getattr(self, "file_root", None) and self.inline_depth < getattr(self, "max_inline_depth", 3):
             # `Type::f(..)` of a crate type without a contract: its real body, if it can be found in the unit's own file / helper files
             root = self.file_root[0]
             for rel in [self.file_root[1]] + list(getattr(self, "helper_files", None) or []):
@@ -1964,7 +1972,8 @@ class Interp:
             if "src/lib.rs" not in files and os.path.exists(os.path.join(root, "src/lib.rs")):
                 files.append("src/lib.rs")
         if not want_recv:
-            files = self._use_resolved_files(short) + files
+            # the unit's own file first (a free fn of an inline module, `alloc::helper`), then what the `use` declarations name
+            files = [self.file_root[1]] + [f_ for f_ in self._use_resolved_files(short) + files if f_ != self.file_root[1]]
         for rel in files:
             for path in fn_paths(root, rel):
                 if (path == short or path.endswith("::" + short)) and not path.startswith("test"):
@@ -3186,8 +3195,7 @@ def run_unit(root, unit, contracts, seed=0, perturb=None):
     del _LEN_CMPS[:]
     try:
         obs_, calls_ = _run_unit(root, unit, contracts, seed=seed, perturb=perturb)
-        fn_ = f"{unit.file}::{unit.fn}"
-        return obs_, list(calls_) + sorted({f"LEN-CMP|{fn_}|len {op_} {k_}|{v_}|{int(o_)}" for (op_, k_, v_, o_) in _LEN_CMPS})
+        return obs_, list(calls_) + sorted({f"LEN-CMP|{fn_}|len {op_} {k_}|{v_}|{int(o_)}" for (fn_, op_, k_, v_, o_) in _LEN_CMPS})
     except OutsideFragment:
         bad = [o for o in _memo_obligations(unit) if o["status"] == "failed"]
         if bad and not perturb:
@@ -3219,6 +3227,7 @@ def _run_unit(root, unit, contracts, seed=0, perturb=None):
         it1.helper_files = list(getattr(unit, "helper_files", ()) or ())
         it1.track_allocs = bool(getattr(unit, "track_allocs", False))
         it1.memo_enabled = bool(getattr(unit, "memo", True))       # False: the unit models the store explicitly in its own contract
+        it1.max_inline_depth = int(getattr(unit, "max_inline_depth", 3))
         it1.decisions = list(decisions)
         env = ChildEnv(None)
         args1 = []
